@@ -328,8 +328,13 @@ def check_api(prop, tier, deadline):
     if prop == "C01":   # content whose size sits at a field boundary (127|128, 255, 32767|32768, 65535) yet within every capacity limit must round-trip like any other
         sizes = run_misc("c17", "quick")
         for v in sizes["violations"]:
-            if not v["sig"].startswith("C10|") and "beyond-limit" not in v["sig"] and ("reload_" in v["sig"] or "crash" in v["sig"]):
+            if not v["sig"].startswith("C10|") and not v["sig"].startswith("C05|") and "beyond-limit" not in v["sig"] and ("reload_" in v["sig"] or "crash" in v["sig"]):
                 rep.add("sizes/" + v["sig"], v["detail"], {"engine": "misc", "mode": "c17", "tier": "quick", "input": v["case"]}, v["count"])
+    if prop == "C05":   # the three frame counts after a refused append at the frame limit and one more successful call
+        lim5 = run_misc("c17", "quick")
+        for v in lim5["violations"]:
+            if v["sig"].startswith("C05|"):
+                rep.add(v["sig"][4:], v["detail"], {"engine": "misc", "mode": "c17", "tier": "quick", "input": v["case"]}, v["count"])
     limits = None
     if prop == "C10":   # refused declarations at the capacity limits (256th point, ...) must also leave the object unchanged
         limits = run_misc("c17", "quick")
@@ -525,7 +530,7 @@ def check_c17(tier, deadline):
     d = run_misc("c17", tier)
     log(f"[limits] cases={d['cases']} outcomes={d['outcomes']} {d['wall_s']}s")
     for v in d["violations"]:
-        if not v["sig"].startswith("C10|"):
+        if not v["sig"].startswith("C10|") and not v["sig"].startswith("C05|"):
             rep.add(v["sig"], v["detail"], {"engine": "misc", "mode": "c17", "tier": tier, "input": v["case"]}, v["count"])
     rep.coverage = {"evaluations": d["done"], "distinct_nontrivial": d["done"],
                     "rule": "for each capacity limit L (parameter description 255, parameter/group name 127, dimension entry 255, string length 255, string count 255, points 255, channels 255, "
